@@ -34,8 +34,98 @@ var Assumptions = []string{
 
 // Run evaluates a property's table, preceded by the T0 trust rule.
 func (c *Ctx) Run(pr *Prop) {
+	progs := []*ir.Program{c.P}
+	if c.P.Cache != nil {
+		progs = append(progs, c.P.Cache)
+	}
+	ir.NeverNilField = func(f *types.Var) bool { return neverNilField(progs, f) }
 	c.ruleT0()
 	pr.Run(c)
+}
+
+var neverNilCache = map[*types.Var]bool{}
+
+// neverNilField: the field (a channel, map, slice, pointer or function) is
+// given a freshly made value wherever a value of its struct type is built in
+// the module - every composite literal / new of the struct in non-test code is
+// followed, in the same function, by a store of make(..) / &T{..} / a function
+// literal into the field - and nothing else ever stores into it. Asking
+// whether it is nil then has one answer.
+func neverNilField(progs []*ir.Program, f *types.Var) bool {
+	if v, ok := neverNilCache[f]; ok {
+		return v
+	}
+	neverNilCache[f] = false
+	fresh := func(v ssa.Value) bool {
+		switch ir.Strip(v).(type) {
+		case *ssa.MakeChan, *ssa.MakeMap, *ssa.MakeSlice, *ssa.Alloc, *ssa.MakeClosure:
+			return true
+		}
+		return false
+	}
+	var owner *types.Named
+	nStores := 0
+	okAll := true
+	for _, p := range progs {
+		for _, fn := range p.Funcs {
+			ir.Instrs(fn, func(in ssa.Instruction) {
+				st, ok := in.(*ssa.Store)
+				if !ok {
+					return
+				}
+				fa, ok := st.Addr.(*ssa.FieldAddr)
+				if !ok || ir.FieldOfAddr(fa) != f {
+					return
+				}
+				nStores++
+				if !fresh(st.Val) {
+					okAll = false
+				}
+				if pt, ok := fa.X.Type().Underlying().(*types.Pointer); ok {
+					if n, ok := pt.Elem().(*types.Named); ok {
+						owner = n
+					}
+				}
+			})
+		}
+	}
+	if !okAll || nStores == 0 || owner == nil {
+		return false
+	}
+	// every construction site sets it
+	for _, p := range progs {
+		for _, fn := range p.Funcs {
+			bad := false
+			ir.Instrs(fn, func(in ssa.Instruction) {
+				al, ok := in.(*ssa.Alloc)
+				if !ok {
+					return
+				}
+				pt, ok := al.Type().(*types.Pointer)
+				if !ok || !types.Identical(pt.Elem(), owner) {
+					return
+				}
+				set := false
+				for _, r := range ir.Refs(al) {
+					if fa, ok := r.(*ssa.FieldAddr); ok && ir.FieldOfAddr(fa) == f {
+						for _, rr := range ir.Refs(fa) {
+							if st, ok := rr.(*ssa.Store); ok && st.Addr == ssa.Value(fa) {
+								set = true
+							}
+						}
+					}
+				}
+				if !set {
+					bad = true
+				}
+			})
+			if bad {
+				return false
+			}
+		}
+	}
+	neverNilCache[f] = true
+	return true
 }
 
 // ruleT0: the module's own packages use no unsafe, no reflect calls and no
